@@ -412,6 +412,9 @@ class Product:
                 return "MissingLowSurrogate: span start %r lies outside the pending escape (its `u` is at %r)" % (start, pos_u)
             if not (start.n <= end.n <= hi_end.n):
                 return "MissingLowSurrogate: span end %r not within [start, current offset %r]" % (end, hi_end)
+            if end.n > pos_u.n + 5:
+                return ("MissingLowSurrogate: span end %r lies beyond the end of the offending escape (its `u` is at %r, "
+                        "the escape ends at %r): the span runs into the element that follows" % (end, pos_u, pos_u.n + 5))
             if not self.same_unit(pst, fields[1], high, 16):
                 return "MissingLowSurrogate: carried unit %r is not the pending high surrogate %r" % (fields[1], high)
             return None
